@@ -25,7 +25,8 @@ HOOK_RULES = ("ledger_exact", "unaddressed_unchanged", "max_after_add", "min_aft
 RULE = (
     "cases = DilutionPlan parameter sets (R 1..16, C 1..24, log/linear, xmax 1e-3..1e3, xmin = xmax/10^(0.1..6), stock = "
     "xmax x {1, 1.0000001, 1.5, 2, 10, 100}, scalar and per-column vmax 100..2000, min_transfer 1..50) biased towards "
-    "steep series in which several columns are diluted from the same source column, must-refuse parameter sets (stock < "
+    "steep series in which several columns are diluted from the same source column and (5 %) towards flat series from a "
+    "strong stock with coarsely rounded stock transfers, must-refuse parameter sets (stock < "
     "xmax, vmax of wrong length, invalid mode), and for one case in 10 (quick) / 14 (thorough) an execution configuration (device, integer "
     "and non-integer worklist max_volume, trough shapes with fewer virtual rows than R and non-zero columns, larger "
     "plates, optional destination plate, mixing parameters, pre/post hooks); a case is non-trivial when a plan with at "
@@ -105,8 +106,17 @@ def _gen_params(rng, small, tier="quick"):
         # executed stream: fewer hopeless requests
         stock = xmax * rng.choice([1, 1, 1.0000001, 1.5, 2, 2, 10])
         min_transfer = rng.choice([1, 2, 5, 10, 10, 20, 25])
-    return {"xmin": xmin, "xmax": xmax, "R": R, "C": C, "stock": stock, "mode": mode, "vmax": _gen_vmax(rng, C, small),
-            "min_transfer": min_transfer}
+    vmax = _gen_vmax(rng, C, small)
+    if rng.random() < 0.05:
+        # flat series from a strong stock with a small min_transfer: the few-microlitre stock transfers are rounded
+        # coarsely, so the achieved concentration of a stock column can fall below the target of a later column
+        if not small:
+            R = rng.choice([1, 1, 2, 3])
+        xmin = xmax / 10 ** rng.uniform(0.1, 0.4)
+        stock = xmax * rng.choice([10, 100, 100])
+        min_transfer = rng.choice([1, 2, 3, 5, 10])
+        vmax = [rng.randint(100, 1000 if small else 2000) for _ in range(C)]
+    return {"xmin": xmin, "xmax": xmax, "R": R, "C": C, "stock": stock, "mode": mode, "vmax": vmax, "min_transfer": min_transfer}
 
 
 def _gen_trough(rng, R):
